@@ -282,7 +282,7 @@ theorem eraseDescend_iter_hit (p : Params K) (pv : p.Valid) (sw : StrictWeak p.l
       simp only [flatten] at hsort
       simp only [chain] at hleaf
       have hi4 := pv.inner4
-      have hkeys : 1 ≤ keys.length := by simp [Params.innerMin] at hmin; omega
+      have hkeys : 1 ≤ keys.length := by simp [Params.innerMin, Gen.innerSlotmin] at hmin; omega
       obtain ⟨j, r, hjk, hscan⟩ := scan_finds p pv sw li sl kk h keys kids ctx hk hkeys hkids hc.toCtxBase hsort hseq
         hoff leaf hleaf e he hek (by
           intro j c cctx hcj hcok _ hle hin
